@@ -436,6 +436,89 @@ theorem projRunes_runeW (st : State) : projRunes (runeW () st) = projRunes st :=
 theorem projRunes_of_runeW {st st' : State} (h : runeW () st = runeW () st') : projRunes st = projRunes st' := by
   rw [← projRunes_runeW st, ← projRunes_runeW st', h]
 
+/-! ### … with local tracking of the values (`applyBlockTracked`, the fold of `drv_flagsx`) -/
+
+theorem runeRelevant_of_runes_off (cfg : Cfg) (blk : Block) :
+    runeRelevant { cfg with indexRunes := false } blk = false := rfl
+
+/-- as soon as `first_index_height ≤ first_rune_height`, a block the configuration gets
+header-only is one the rune updater would not run on anyway -/
+theorem applyBlockTracked_runeW (fixed : Bool) (cfg : Cfg)
+    (hle : cfg.indexRunes = true → ∃ h, cfg.firstIndexHeight fixed = some h ∧ h ≤ cfg.firstRuneHeight)
+    (st : State) (blk : Block) (st' : State) (evs : List Event)
+    (h : applyBlockTracked fixed cfg st blk = .ok (st', evs)) :
+    ∃ evr, runeStep cfg (runeW () st) blk = .ok (runeW () st', evr) := by
+  unfold applyBlockTracked at h
+  by_cases hfull : cfg.fetchesFull fixed blk.height = true
+  · rw [if_pos hfull] at h
+    exact applyBlock_runeW cfg st blk st' evs h
+  · rw [if_neg hfull] at h
+    obtain ⟨evr, hs⟩ := applyBlock_runeW _ st blk st' evs h
+    unfold runeStep at hs
+    rw [runeRelevant_of_runes_off] at hs
+    simp only [Bool.false_eq_true, if_false, Outcome.ok.injEq, Prod.mk.injEq] at hs
+    have hn : runeRelevant cfg blk = false := by
+      cases hr : cfg.indexRunes with
+      | false => simp [runeRelevant, hr]
+      | true =>
+        obtain ⟨fh, e, le⟩ := hle hr
+        have hlt : ¬ blk.height ≥ fh := by
+          intro hge
+          apply hfull
+          unfold Cfg.fetchesFull
+          rw [e]
+          exact decide_eq_true hge
+        have : ¬ blk.height ≥ cfg.firstRuneHeight := fun hge => hlt (Nat.le_trans le hge)
+        simp [runeRelevant, this]
+    refine ⟨[], ?_⟩
+    unfold runeStep
+    rw [hn, ← hs.1]
+    rfl
+
+theorem runTrackedFrom_runeW (fixed : Bool) (cfg : Cfg)
+    (hle : cfg.indexRunes = true → ∃ h, cfg.firstIndexHeight fixed = some h ∧ h ≤ cfg.firstRuneHeight) :
+    ∀ (chain : List Block) (st st' : State) (evs : List Event),
+    runTrackedFrom fixed cfg st chain = .ok (st', evs) → runeRunFrom cfg (runeW () st) chain = .ok (runeW () st')
+  | [], st, st', evs, h => by
+    simp only [runTrackedFrom, Outcome.ok.injEq, Prod.mk.injEq] at h
+    obtain ⟨rfl, rfl⟩ := h
+    rfl
+  | b :: bs, st, st', evs, h => by
+    simp only [runTrackedFrom] at h
+    cases h1 : applyBlockTracked fixed cfg st b with
+    | panic s => rw [h1] at h; simp at h
+    | err e => rw [h1] at h; simp at h
+    | ok r =>
+      obtain ⟨st1, ev1⟩ := r
+      rw [h1] at h
+      dsimp only at h
+      obtain ⟨evr, hs⟩ := applyBlockTracked_runeW fixed cfg hle st b st1 ev1 h1
+      simp only [runeRunFrom, hs]
+      cases h2 : runTrackedFrom fixed cfg st1 bs with
+      | panic s => rw [h2] at h; simp at h
+      | err e => rw [h2] at h; simp at h
+      | ok r2 =>
+        obtain ⟨st2, ev2⟩ := r2
+        rw [h2] at h
+        simp only [Outcome.ok.injEq, Prod.mk.injEq] at h
+        obtain ⟨rfl, rfl⟩ := h
+        exact runTrackedFrom_runeW fixed cfg hle bs st1 st2 ev2 h2
+
+/-- two configurations with the same rune settings, both with
+`first_index_height ≤ first_rune_height`, each indexing the chain as it sees it (values tracked):
+same rune results -/
+theorem runTracked_runeW_eq (fixed : Bool) (cfg cfg' : Cfg) (hr : cfg.indexRunes = cfg'.indexRunes)
+    (hf : cfg.firstRuneHeight = cfg'.firstRuneHeight)
+    (hle : cfg.indexRunes = true → ∃ h, cfg.firstIndexHeight fixed = some h ∧ h ≤ cfg.firstRuneHeight)
+    (hle' : cfg'.indexRunes = true → ∃ h, cfg'.firstIndexHeight fixed = some h ∧ h ≤ cfg'.firstRuneHeight)
+    (chain : List Block) (st st' : State) (evs evs' : List Event)
+    (h : runTracked fixed cfg chain = .ok (st, evs)) (h' : runTracked fixed cfg' chain = .ok (st', evs')) :
+    runeW () st = runeW () st' := by
+  have a := runTrackedFrom_runeW fixed cfg hle chain {} st evs h
+  have b := runTrackedFrom_runeW fixed cfg' hle' chain {} st' evs' h'
+  rw [← runeRunFrom_congr cfg cfg' hr hf, a] at b
+  exact Outcome.ok.inj b
+
 /-! ### what a configuration sees -/
 
 theorem filter_map_view (p : Block → Bool) (f : Block → Block) (hp : ∀ b, p (f b) = p b)
